@@ -15,6 +15,10 @@ Runtime equality of graphs is out of reach; decided structural clauses:
      initialisation, the conjunction with the current value, or `false`; a
      parked dynamic branch's asset flag only ever moves to `false`.
   e. kind gating of the builder agrees with the walker.
+  f. every field of the analysis result (ModuleInfo, the dependency descriptors,
+     specifier-with-range, JSDoc import info) is consumed by the graph builder;
+     media type dispatch has no catch-all, JS/TS modules are analysed on exactly
+     the stored text / media type, failures become error entries.
 """
 from .lib import *
 from .lib import _tail_values
@@ -167,6 +171,52 @@ def run(F, R, tier):
         g = guards_at(F, c)
         ok = any(x.kind == "cond" and x.pol and "is_dynamic" in expr_text(x.node) for x in g) and any(x.kind == "cond" and x.pol and "skip_dynamic_deps" in expr_text(x.node) for x in g)
         R.ob("C01-e", "a dependency is skipped only when it is dynamic and skip_dynamic_deps is set", ok, "`continue` in visit_module_dependencies guarded by %s" % [x.text()[:50] for x in g], where(c))
+
+    # ---------------- C01-f ------------------------------------------------
+    # every piece of the analysis result is consumed by the graph builder
+    consumers = [b for b in F.bodies if b["file"] == "src/graph.rs" and not b.get("derived")]
+    read = set()
+    for b in consumers:
+        for n in b["_nodes"]:
+            if n.get("k") == "Field" and n.get("adt"):
+                read.add((n["adt"], n["field"]))
+            if n.get("k") == "Pat" and n.get("pk") == "struct":
+                for f in n["fields"]:
+                    read.add((n.get("path"), f["name"]))
+    for adt in ("analysis::ModuleInfo", "analysis::StaticDependencyDescriptor", "analysis::DynamicDependencyDescriptor", "analysis::SpecifierWithRange", "analysis::JsDocImportInfo"):
+        a = F.adt(adt)
+        for f in a["variants"][0]["fields"]:
+            R.ob("C01-f", "analysis result field %s.%s is consumed by the graph builder" % (adt.split("::")[-1], f["name"]), (adt, f["name"]) in read,
+                 "graph.rs never reads %s.%s: that kind of dependency information reported by the analyser would be silently dropped from every graph" % (adt, f["name"]), a["file"])
+    # media type dispatch
+    pm = F.body("graph::parse_module_source_and_info")
+    mts = [n for n in pm["_nodes"] if n["k"] == "Match" and tyc(F, n["scrut"], "deno_media_type::MediaType") and len(n["arms"]) >= 3]
+    if R.ob("C01-f", "media type dispatch found", len(mts) == 1, "shape changed", pm["file"]):
+        m = mts[0]
+        ca = any(pat_variants(a_["pat"])[1] for a_ in m["arms"])
+        R.ob("C01-f", "every media type is dispatched explicitly", not ca, "catch-all over MediaType: a new media type would silently become a module or an error", where(m))
+        for arm in m["arms"]:
+            v, _ = pat_variants(arm["pat"])
+            names = {x.split("::")[-1] for x in v}
+            ctors = {ctor_of(x) for x in walk(arm["body"]) if ctor_of(x)}
+            if names & {"JavaScript", "TypeScript", "Jsx", "Tsx", "Mjs", "Mts", "Dts"}:
+                js = [x for x in walk(arm["body"]) if x.get("k") == "Struct" and x.get("variant") == "graph::ModuleSourceAndInfo::Js"]
+                an = [x for x in walk(arm["body"]) if x.get("k") == "MethodCall" and x["name"] == "analyze"]
+                ok = len(js) == 1 and len(an) == 1
+                if ok:
+                    f = {y["name"]: peel_value(y["e"]) for y in js[0]["fields"]}
+                    txt = peel_value(an[0]["args"][1])
+                    ok = f["media_type"].get("lid") == peel(m["scrut"]).get("lid") and txt.get("k") == "Field" and txt["field"] == "text" and peel_value(txt["e"]).get("lid") == f["source"].get("lid") \
+                        and peel_value(an[0]["args"][2]).get("lid") == peel(m["scrut"]).get("lid")
+                R.ob("C01-f", "JS/TS modules are analysed on exactly the text and media type that are stored", ok,
+                     "the analyser is run on something other than the stored source text / media type: recorded dependencies would not be those the stored source declares", where(arm["body"]))
+                R.ob("C01-f", "an analysis failure becomes a Parse error entry", "graph::ModuleErrorKind::Parse" in ctors, "no ModuleErrorKind::Parse in the JS arm", where(arm["body"]))
+            elif names & {"Wasm"}:
+                R.ob("C01-f", "wasm modules are analysed through their generated declaration text", "graph::ModuleSourceAndInfo::Wasm" in ctors and "graph::ModuleErrorKind::WasmParse" in ctors, "wasm arm changed: %s" % sorted(c for c in ctors if c.startswith("graph::")), where(arm["body"]))
+            elif names & {"Unknown", "Css", "Html"}:
+                vals = []
+                _tail_values(F, arm["body"], vals)
+                R.ob("C01-f", "non-module media types become UnsupportedMediaType errors", "graph::ModuleErrorKind::UnsupportedMediaType" in ctors and all(ctor_of(x) == "std::result::Result::Err" for x in vals), "unsupported media types are not rejected", where(arm["body"]))
 
     # ---------------- C01-d ------------------------------------------------
     writes = [n for n in F.all_nodes() if not n["_top"].get("derived") and n["k"] in ("Assign", "AssignOp") and peel(n["l"]).get("k") == "Field" and peel(n["l"])["field"] == "is_dynamic" and peel(n["l"]).get("adt") == "graph::Dependency"]
